@@ -17,7 +17,7 @@ import shutil
 
 import vlib
 
-PROPS = ['Rangers.Props.C17', 'Rangers.Props.C17B', 'Rangers.Props.C17C', 'Rangers.Props.C17D', 'Rangers.Props.C17E']
+PROPS = ['Rangers.Props.C17', 'Rangers.Props.C17B', 'Rangers.Props.C17C', 'Rangers.Props.C17D', 'Rangers.Props.C17E', 'Rangers.Props.C17F']
 DRIVERS = ['C17']
 META = dict(
     level='proof',
@@ -76,6 +76,69 @@ def both_bad_op(c, allowed):
         c.setdefault('errors', []).append('%d op lines answered bad-op by implementation AND model (expected %d deliberately malformed ones): e.g. %r' % (n, allowed, first))
 
 
+def distribution(c):
+    """Input distribution of a stream: op kind x answer class, plus the branches of the real code the answers reveal."""
+    try:
+        ops = open(c['paths']['ops'], errors='replace').read().split('\n')
+        obs = open(c['paths']['obs'], errors='replace').read().split('\n')
+        mod = open(c['paths']['mod'], errors='replace').read().split('\n')
+    except Exception:
+        return
+    by, br = {}, {}
+
+    def inc(d, k):
+        d[k] = d.get(k, 0) + 1
+    for o, x, y in zip(ops, obs, mod):
+        f = o.split(' ')
+        k = f[0]
+        if not k or k.startswith('#'):
+            continue
+        cls = x.split(' ')[0]
+        if k in ('pack',):
+            n = cls
+            cls = 'PANIC' if x.startswith('PANIC') else ('empty' if n == '0' else ('full-200' if n == '200' else 'some'))
+            if y == 'unmodelled':
+                inc(br, 'pack:sort-not-determined(unmodelled)')
+        elif k in ('stat',):
+            n = int(cls) if cls.isdigit() else -1
+            cls = 'empty' if n == 0 else ('<=12' if n <= 12 else ('<=200' if n <= 200 else '>200'))
+            if ' true ' in x:
+                inc(br, 'stat:container-full')
+        elif k in ('sort', 'less'):
+            cls = 'PANIC' if x.startswith('PANIC') else ('unmodelled' if y == 'unmodelled' else ('list' if k == 'sort' else cls))
+        elif k == 'deliver':
+            cls = {'0': 'succ', '1': 'existed', '2': 'qn-less', '3': 'no-pre', '-1': 'failed'}.get(cls, cls)
+        elif cls.startswith('PANIC'):
+            cls = 'PANIC'
+        inc(by.setdefault(k, {}), cls)
+        if k == 'mark' and len(f) == 4:
+            if f[3] != '-':
+                inc(br, 'mark:with-evicted')
+            if f[1] == '-':
+                inc(br, 'mark:no-receipts')
+            elif f[1] != f[2]:
+                inc(br, 'mark:receipts!=block-list(index-miss/skipped)')
+        if k == 'markz':
+            w = x.split(' ')[1] if ' ' in x else '-'
+            inc(br, 'markz:%d-writes' % (0 if w == '-' else len(w.split(','))))
+            if x.startswith('crash'):
+                inc(br, 'markz:crash')
+        if k == 'unmark' and len(f) == 3:
+            if f[1] == '-':
+                inc(br, 'unmark:block-without-txs(early-return)')
+            if f[2] != '-':
+                inc(br, 'unmark:with-evicted')
+        if k == 'deliver' and len(f) == 9:
+            inc(br, 'deliver:' + ('with-txs' if f[6] != '-' else 'empty') + (',evicted-list' if f[8] != '-' else ''))
+        if k == 'cfg' and len(f) == 6:
+            inc(br, 'cfg:flags=' + ''.join(f[1:5]) + (',limit' if f[5] != '0' else ''))
+    st = c.get('stats')
+    if isinstance(st, dict):
+        st['by_kind'] = by
+        st['branches'] = br
+        st.pop('results', None)
+
+
 def gen(ctx):
     rc, so, se = vlib.go_run_gen(ctx, 'c17facts', ['repo=' + ctx.repo])
     if rc != 0:
@@ -89,15 +152,18 @@ def correspond(ctx):
     c = vlib.correspond(ctx, 'c17', 'C17', ['scripts=%d' % n], canon=canon, timeout=2400, nontrivial=nontrivial)
     c['name'] = 'pool-scripts'
     both_bad_op(c, 12)
+    distribution(c)
     # TxPool.Clear() re-binds the pool's store for the rest of the process: a process of its own
     c2 = vlib.correspond(ctx, 'c17', 'C17', ['clear=1'], canon=canon, timeout=600, nontrivial=nontrivial)
     c2['name'] = 'pool-clear'
     both_bad_op(c2, 0)
+    distribution(c2)
     # the pool driven by the real block chain (C05 hooks): reorg histories through AddBlockOnChain
     c3 = vlib.correspond(ctx, 'c17', 'C17', ['mode=chain', 'histories=%d' % (25 if ctx.thorough() else 4)], canon=canon,
                          timeout=1200, nontrivial=lambda o, x: not o.startswith('#'))
     c3['name'] = 'chain-reorg'
     both_bad_op(c3, 0)
+    distribution(c3)
     return [c, c2, c3]
     # a panic of the real pool on a well-formed history is a property-level fact by itself;
     # PANIC answers the model also gives (Less on equal hashes called directly, receipts without
